@@ -74,6 +74,12 @@ CHECKS.update({
    note="Trusted: rustc/linker. Histories are those of the explorer at the reported depth."),
 })
 
+CHECKS.update({
+ "C10": dict(level="exploration", design="4/C10", engine="c10 (python driver over the eqlog CLI) + refstatic", technique="bounded-exhaustive enumeration of programs (curated well-formed bases, every single-site mutation of each, thorough: all small rules over atom pools) judged by an independent reference static semantics and compiled by the real CLI",
+   text="Every program of the family is analysed by the reference static semantics (symbol table, scopes per control-flow path, type inference by congruence closure, the epic check per then-statement, enum and match rules), which yields the set of (class, line) defects; the CLI must accept iff that set is empty, and otherwise exit 1 with a first message whose class and line are among the defects (or induced consequences) found. Mutation is only the way ill-formed programs are reached; multi-defect mutants are handled by the set-valued oracle.",
+   note="Trusted: refstatic.py (calibrated on the repository's 45 error sources and accepted theories inside the fragment). Programs outside the fragment (models, member access, Mor) are skipped and counted."),
+})
+
 PENDING = {}
 
 def main():
